@@ -149,7 +149,7 @@ def cols_of(ty):
 @st.composite
 def expr(draw, ty, depth, F):
     if ty == "Bool":
-        return draw(pred(depth, F))
+        return draw(_pred(depth, F))
     leafy = depth <= 0 or draw(st.integers(0, 9)) < 3
     cols = cols_of(ty)
     if leafy:
@@ -241,8 +241,17 @@ def small_index(d, F):
 CMP_OPS = ["eq", "ne", "lt", "le", "gt", "ge"]
 
 
+def pred(depth, F, scale=True):
+    """A well-typed predicate of nesting depth <= depth; one draw in 25 is instead large along one
+    dimension of the size ladder (see `scaled_pred`)."""
+    small = _pred(depth, F)
+    if not scale or depth < 2:
+        return small
+    return st.one_of(*([small] * 24 + [scaled_pred(F)]))
+
+
 @st.composite
-def pred(draw, depth, F):
+def _pred(draw, depth, F):
     d = depth - 1
     if depth <= 0:
         c = draw(st.integers(0, 9))
@@ -277,9 +286,9 @@ def pred(draw, depth, F):
                  draw(st.sampled_from([("lit", "int", "1"), ("lit", "int", "2"), ident("i1"), ident("i2")])))
         return ("cmp", draw(st.sampled_from(CMP_OPS)), t, draw(expr("Int", 0, F)))
     if c < 24:
-        return ("bool", draw(st.sampled_from(["and", "or"])), draw(pred(d, F)), draw(pred(d, F)))
+        return ("bool", draw(st.sampled_from(["and", "or"])), draw(_pred(d, F)), draw(_pred(d, F)))
     if c < 32:
-        return ("un", "not", draw(pred(d, F)))
+        return ("un", "not", draw(_pred(d, F)))
     if c < 62:
         return draw(comparison(d, F))
     if c < 72:
@@ -436,6 +445,8 @@ def type_of(t, columns=COLUMNS):
                 raise IllTyped("in without list")
             for e in t[3][1]:
                 b = type_of(e, columns)
+                if b == "Null":
+                    continue
                 if not _comparable(a, b):
                     raise IllTyped("in-list element %s vs %s" % (b, a))
             return "Bool"
@@ -489,3 +500,150 @@ def well_typed_pred(t, columns=COLUMNS):
         return type_of(t, columns) == "Bool"
     except IllTyped:
         return False
+
+
+# ---- the size ladder (typed side) ---------------------------------------------------------------
+
+@st.composite
+def scaled_pred(draw, F, dims=None):
+    """A predicate that is large along exactly one dimension (list length, operator-run length,
+    nesting depth, literal magnitude, string length), built from a handful of draws."""
+    import random
+    from .gen_syntax import LADDER, _positions
+    dims = dims or ["inlist", "inlist", "boolchain", "arith", "nest", "bigint", "strlen"]
+    dim = draw(st.sampled_from(dims))
+    r = random.Random(draw(st.integers(0, 2 ** 30)))
+    cmps = [draw(comparison(0, F)) for _ in range(4)]
+    t = _build_scaled_pred(dim, r, cmps, F)
+    ctx = draw(st.integers(0, 7))
+    if ctx == 0:
+        t = ("un", "not", t)
+    elif ctx == 1:
+        t = ("bool", "and", cmps[3], t)
+    elif ctx == 2:
+        t = ("bool", "or", t, cmps[3])
+    elif ctx == 3:
+        t = ("bool", "and", ("un", "not", t), cmps[3])
+    return t
+
+
+def _build_scaled_pred(dim, r, cmps, F):
+    from .gen_syntax import _positions
+    # the typed side is executed by real engines: sizes stay below their own limits (SQLite's parser
+    # stack, the ORMs' recursive compilers), which are not the library's to answer for
+    LADDER = {"list": [5, 8, 9, 10, 11, 12, 13, 16, 17, 25, 32, 33, 37, 64, 65, 100, 101, 129, 257, 1000, 1001],
+              "chain": [9, 12, 13, 14, 17, 33, 49, 50, 51, 64, 65, 66],
+              "nest": [5, 6, 7, 9, 13, 17],
+              "strlen": [16, 17, 33, 65, 129, 300, 1025]}
+    I1, I2, S1, S2 = ident("i1"), ident("i2"), ident("s1"), ident("s2")
+    if dim == "inlist":
+        n = r.choice(LADDER["list"])
+        if r.random() < 0.6:
+            col, other = r.choice([(I1, I2), (I2, I1)])
+            base, step = r.choice([(0, 1), (1000, 1), (-5, 3), (2 ** 31 - 3, 1)])
+            items = [("lit", "int", str(base + i * step)) for i in range(n)]
+        else:
+            col, other = r.choice([(S1, S2), (S2, S1)])
+            items = [("lit", "str", ["k%d", "it's %d", "%d%%", "a_%d", "%d"][i % 5 if r.random() < 0.5 else 0] % i)
+                     for i in range(n)]
+        for p in _positions(r, n, r.randrange(0, 3)):
+            k = r.randrange(4)
+            if k == 0 and getattr(F, "in_null", True):
+                items[p] = ("lit", "null", "")
+            elif k == 1 and F.in_exprs:
+                items[p] = other
+            elif k == 2:
+                items[p] = items[r.randrange(n)]          # a repeated value
+        return ("cmp", "in", col, ("list", tuple(items)))
+    if dim == "boolchain":
+        n = r.choice(LADDER["chain"])
+        op = r.choice(["and", "or"])
+        oth = "or" if op == "and" else "and"
+        pool = [("cmp", "ne", I1, ("lit", "int", "5")), ("cmp", "le", I2, ("lit", "int", "100")),
+                ("cmp", "ne", S1, ("lit", "str", "q")), ("cmp", "eq", I2, ("lit", "int", "1")),
+                ("cmp", "ge", I1, ("lit", "int", "0")), ("cmp", "lt", I1, ("lit", "int", "3")),
+                ("cmp", "eq", I1, I2), ("cmp", "ne", S2, S1)] + cmps[:3]
+        items = [r.choice(pool) for _ in range(n)]
+        for p in _positions(r, n, r.randrange(1, 4)):
+            items[p] = ("bool", oth, r.choice(pool), r.choice(pool))
+        shape = r.randrange(3)
+        if shape == 0:
+            t = items[0]
+            for x in items[1:]:
+                t = ("bool", op, t, x)
+            return t
+        if shape == 1:
+            t = items[-1]
+            for x in reversed(items[:-1]):
+                t = ("bool", op, x, t)
+            return t
+
+        def bal(xs):
+            if len(xs) == 1:
+                return xs[0]
+            m = len(xs) // 2
+            return ("bool", op, bal(xs[:m]), bal(xs[m:]))
+        return bal(items)
+    if dim == "arith":
+        n = r.choice(LADDER["chain"])
+        fam = r.choice([["add", "sub"], ["sub"], ["add"], ["add", "sub", "mul"]])
+        t = r.choice([I1, I2])
+        total = 0
+        for i in range(n):
+            op = r.choice(fam)
+            x = r.choice([("lit", "int", "1"), ("lit", "int", "2"), ("lit", "int", "1"), I2 if op != "mul" else ("lit", "int", "1")])
+            if r.random() < 0.15:
+                # a right operand that is itself a run: parentheses are required
+                x = ("bin", r.choice(["add", "sub"]), x, ("lit", "int", "3"))
+            t = ("bin", op, t, x)
+        return ("cmp", r.choice(["le", "gt", "eq", "ne"]), t, ("lit", "int", str(r.choice([0, -n, n, -n // 2, 1]))))
+    if dim == "nest":
+        d = r.choice(LADDER["nest"])
+        kind = r.randrange(4)
+        if kind == 0:
+            t = cmps[0]
+            for _ in range(d):
+                t = ("un", "not", t)
+            return t
+        if kind == 1:
+            t = cmps[0]
+            for i in range(d):
+                t = ("bool", "and" if i % 2 else "or", t, cmps[1 + i % 3]) if r.random() < 0.5 else \
+                    ("bool", "and" if i % 2 else "or", cmps[1 + i % 3], t)
+            return t
+        if kind == 2 and "concat" in F.funcs:
+            t = r.choice([S1, S2])
+            for i in range(min(d, 17)):
+                piece = ("lit", "str", r.choice(["a", "b", "", "'", "ab"]))
+                t = ("call", "concat", (), (t, piece)) if i % 2 else ("call", "concat", (), (piece, t))
+            return ("cmp", r.choice(["eq", "ne", "ge"]), t, r.choice([S1, S2, ("lit", "str", "aab")]))
+        if {"tolower", "toupper", "trim"} <= F.funcs:
+            t = r.choice([S1, S2])
+            for i in range(d):
+                t = ("call", r.choice(["tolower", "toupper", "trim"]), (), (t,))
+            return ("cmp", r.choice(["eq", "ne"]), t, r.choice([("lit", "str", "ab"), ("lit", "str", "AB"), S2]))
+        t = cmps[0]
+        for _ in range(d):
+            t = ("un", "not", t)
+        return t
+    if dim == "bigint":
+        v = r.choice([2 ** 53, 2 ** 53 + 1, 2 ** 53 - 1, -(2 ** 53) - 1, 2 ** 62 + 1, 2 ** 63 - 1, -2 ** 63, -2 ** 63 + 1,
+                      10 ** 16 + 1, 10 ** 18 + 1, 2 ** 31, 2 ** 32 + 1, 10 ** 15 + 1])
+        col = r.choice([I1, I2])
+        k = r.randrange(4)
+        lit = ("lit", "int", str(v))
+        if k == 0:
+            near = [("lit", "int", str(v + dv)) for dv in (-2, 2) if -2 ** 63 <= v + dv < 2 ** 63]
+            return ("cmp", "in", col, ("list", tuple([lit] + near)))
+        return ("cmp", r.choice(["eq", "ne", "lt", "le", "gt", "ge"]), col, lit)
+    if dim == "strlen":
+        n = r.choice(LADDER["strlen"])
+        like = [f for f in ("contains", "startswith", "endswith") if f in F.funcs]
+        wild = F.like_wildcards
+        units = ["'", "a", "'a", " ", "ab'", "☃"] + (["%", "_", "\\", "%_", "_%a"] if wild else [])
+        text = (r.choice(units) * n)[:n]
+        col = r.choice([S1, S2])
+        if like and r.random() < 0.6:
+            return ("call", r.choice(like), (), (col, ("lit", "str", text)))
+        return ("cmp", r.choice(["eq", "ne", "ge"]), col, ("lit", "str", text))
+    raise ValueError(dim)
